@@ -4,6 +4,7 @@ package c15
 
 import (
 	"fmt"
+	"math/bits"
 	"sort"
 	"testing"
 
@@ -19,10 +20,10 @@ func TestMain(m *testing.M) { vk.Main(m, "C15") }
 // Op is one step of a history with concrete arguments (replay needs no rapid).
 type Op struct {
 	I   int    `json:"i,omitempty"`   // which TailBitmap of the case (0 = the first)
-	K   string `json:"k"`             // set | fillword | fillthrough | compact
-	A   int64  `json:"a,omitempty"`   // set: idx; fillword: absolute word number; fillthrough: number of words
-	B   int64  `json:"b,omitempty"`   // fillword: order 0 front-to-back, 1 back-to-front, 2 permuted by Key
-	Key vk.U64 `json:"key,omitempty"` // permutation key
+	K   string `json:"k"`             // set | fillword | fillthrough | pattern | compact | readall
+	A   int64  `json:"a,omitempty"`   // set: idx; fillword: absolute word number; fillthrough: number of words; pattern: first absolute word number
+	B   int64  `json:"b,omitempty"`   // fillword: order 0 front-to-back, 1 back-to-front, 2 permuted by Key; pattern: number of words
+	Key vk.U64 `json:"key,omitempty"` // permutation key; pattern: decides the content of every word (see wordPattern)
 }
 
 type Case struct {
@@ -35,9 +36,10 @@ type Case struct {
 
 var checker = &vk.Checker[Case]{
 	ID: "C15",
-	Rule: "histories on one to three TailBitmaps that are alive at the same time (after every step the untouched ones are checked too), each from NewTailBitmap(o), o in {0,64,128,64*r up to 2^40, 2^37}, of <= 60 (thorough <= 400) steps drawn state-dependently from a model: Set(idx) below Offset / at Offset / inside word 0 / the LAST missing bit of word 0 (forces compaction) / inside word k>0 / up to 8 (thorough 64) words past the end / more than 1024 words (the initial capacity) past the end / repeats; " +
-		"macro steps FillWord(k, front-to-back | back-to-front | permuted) and FillThrough(m words), m in {1,2,3,1023,1024,1025} (crossing the 1024-word reclaim threshold); Compact. Model = o + set of explicitly set indexes. After EVERY step: Offset%64==0, Offset monotone, Offset <= first model zero, first stored word not all-ones after a Set, " +
-		"Get1/Get == model over [max(0,Offset-130), end of stored words) (all positions when <= 4096, else boundaries, each word's first/last bit and 512 keyed positions), highest set index below Offset or inside the stored words, Compact changes no Get result. " +
+	Rule: "histories on one to three TailBitmaps that are alive at the same time (after every step the untouched ones are checked too), each from NewTailBitmap(o), o in {0,64,128,64*r up to 2^40, 2^37, 64*r with r of any magnitude up to 2^55}, of <= 60 (thorough <= 400) steps drawn state-dependently from a model: Set(idx) below Offset (within 200, or at any log-uniform distance down to 0) / at Offset / inside word 0 / the LAST missing bit of word 0 (forces compaction) / inside stored word k>0 (one of the first four, or any) / past the end: up to 8 (thorough 64) words, any log-uniform number of words up to 4096, ending around a capacity step (1024/2048/4096 words +-1), 1024..1064 words (beyond the initial capacity), rarely up to 2^17 (thorough 2^21) words / repeats; " +
+		"macro steps FillWord(k, front-to-back | back-to-front | permuted), FillThrough(m words), m in {1,2,3,1023,1024,1025} or log-uniform in 4..1100 (crossing the 1024-word reclaim threshold, more often when a stored tail lies beyond the crossing point) and Pattern(first word, n <= 64 words: a keyed word-wise mix of untouched, complete, one-bit, all-but-one-bit, random, dense and run-shaped words); Compact; ReadAll. Model = o + set of explicitly set indexes. After EVERY elementary Set: Offset%64==0, Offset monotone, Offset <= first model zero, first stored word not all-ones, highest set index below Offset or inside the stored words; between the Sets of a macro step also Get1/Get at the bit just set +-1, Offset-1, Offset, the first zero and the last stored bit. After every step " +
+		"Get1/Get == model over [max(0,Offset-130), end of stored words) (all positions when <= 4096; else the first word, each word's first/last bit (beyond 2048 words: of the first/last 64 and 512 keyed words, plus a keyed bit), every stored set index with its neighbours at +-1 and +-64 (beyond 1024 of them the latest 256 and 512 keyed ones), boundaries and 512 keyed positions) and over the implicit prefix [0, Offset-130): 0,1,63,64.., around the initial o, fixed and power-of-two distances below Offset, absolute powers of two, keyed log-uniform distances below Offset, keyed log-uniform and uniform absolute positions, keyed positions and word boundaries of the region [o, Offset) that was set and then compacted away; ReadAll reads every position from Offset-8192 to the end (beyond 2048 words: of the first and last 1024 words). Compact changes no Get result. " +
+		"Grid: three fixed reclaim-crossing histories, and histories of six threshold crossings each in which the crossing Compact drops n in {1,2,3,4,5,8,33,64,200} words at once and keeps a tail of l words, l = 0,1,2,.. 2^k-1,2^k,2^k+1 .. 4097 and two more sizes (thorough: eight) per octave chosen by the seed of the run, read completely before and after, from o in {0, 64, 2^31-, 2^32-, 2^37, 2^40+, 2^60+ ..}. " +
 		"One fixed history grows a stored tail beyond 2^31 bits (thorough: beyond 2^32) while word 0 stays incomplete, probed at its ends, around 2^31/2^32 and at every set index. " +
 		"Non-trivial: the history advanced Offset at least once and afterwards a stored word (which holds a 0 bit) was probed. Distinct by hash of the history.",
 	Check:    check,
@@ -46,17 +48,45 @@ var checker = &vk.Checker[Case]{
 
 // ---------------------------------------------------------------- model
 
+// model: the initial offset and the set of explicitly set indexes - kept as a sparse table from j/64 to a 64-bit mask
+// of the members j (absolute positions: no offset, nothing is ever dropped or moved).
 type model struct {
 	o         int64
-	set       map[int64]bool
+	set       map[int64]uint64
 	firstZero int64
 	maxSet    int64
+	// live (kept only when track is set: by check, not by the generator): the explicitly set indexes, each once, in
+	// the order of their first Set, that are not below the model's offset (firstZero rounded down to 64) yet
+	track   bool
+	live    []int64
+	liveOff int64
 }
 
-func newModel(o int64) *model { return &model{o: o, set: map[int64]bool{}, firstZero: o, maxSet: -1} }
+// liveSet returns the explicitly set indexes that a correct implementation still holds in its stored words.
+func (m *model) liveSet() []int64 {
+	if off := m.firstZero / 64 * 64; off != m.liveOff {
+		m.liveOff = off
+		k := 0
+		for _, j := range m.live {
+			if j >= off {
+				m.live[k] = j
+				k++
+			}
+		}
+		m.live = m.live[:k]
+	}
+	return m.live
+}
+
+func newModel(o int64) *model {
+	return &model{o: o, set: map[int64]uint64{}, firstZero: o, maxSet: -1}
+}
+
+// has: j (>= 0) was set explicitly.
+func (m *model) has(j int64) bool { return m.set[j/64]>>uint(j%64)&1 == 1 }
 
 func (m *model) get(j int64) uint64 {
-	if j < m.o || m.set[j] {
+	if j < m.o || m.has(j) {
 		return 1
 	}
 	return 0
@@ -64,12 +94,15 @@ func (m *model) get(j int64) uint64 {
 
 func (m *model) doSet(j int64) {
 	if j >= m.o {
-		m.set[j] = true
+		if m.track && !m.has(j) {
+			m.live = append(m.live, j)
+		}
+		m.set[j/64] |= 1 << uint(j%64)
 	}
 	if j > m.maxSet {
 		m.maxSet = j
 	}
-	for m.set[m.firstZero] {
+	for m.has(m.firstZero) {
 		m.firstZero++
 	}
 }
@@ -102,8 +135,69 @@ func expand(op Op, m *model) []int64 {
 			idx = append(idx, start+i)
 		}
 		return idx
+	case "pattern":
+		var idx []int64
+		for w := op.A; w < op.A+op.B; w++ {
+			idx = wordPattern(idx, w, uint64(op.Key))
+		}
+		return idx
 	}
 	return nil
+}
+
+// wordPattern appends the Sets that give absolute word w its content under key: a word-wise mix of untouched, complete
+// (both fill directions), single-bit, all-but-one-bit (bit 0, bit 63 or a keyed bit missing), random, dense and run-shaped words.
+func wordPattern(idx []int64, w int64, key uint64) []int64 {
+	z := vk.Mix(key + uint64(w)*0x9e3779b97f4a7c15)
+	base := w * 64
+	var mask uint64
+	desc := z>>40&1 == 1
+	switch z % 10 {
+	case 0, 1: // untouched
+		return idx
+	case 2:
+		mask, desc = ^uint64(0), false
+	case 3:
+		mask, desc = ^uint64(0), true
+	case 4:
+		mask = 1 << (z >> 8 % 64)
+	case 5:
+		mask = ^(uint64(1) << []uint64{0, 63, z >> 8 % 64}[z>>16%3])
+	case 6:
+		mask = vk.Mix(z)
+	case 7:
+		mask = vk.Mix(z) | vk.Mix(z+1) | vk.Mix(z+2)
+	case 8:
+		mask = ^uint64(0) >> (z >> 8 % 64)
+	default:
+		mask = ^uint64(0) << (z >> 8 % 64)
+	}
+	for i := 0; i < 64; i++ {
+		b := i
+		if desc {
+			b = 63 - i
+		}
+		if mask>>uint(b)&1 == 1 {
+			idx = append(idx, base+int64(b))
+		}
+	}
+	return idx
+}
+
+// logScale maps z to [0, n) with a log-uniform magnitude (every octave below n is as likely as any other).
+func logScale(z, n uint64) int64 {
+	if n == 0 {
+		return 0
+	}
+	k := uint(z>>57)%uint(bits.Len64(n)) + 1 // number of significant bits, 1..Len(n)
+	v := vk.Mix(z)
+	if k < 64 {
+		v = v&(1<<k-1) | 1<<(k-1)
+	}
+	if k == 1 && z>>56&1 == 0 {
+		v = 0
+	}
+	return int64(v % n)
 }
 
 // ---------------------------------------------------------------- check
@@ -121,6 +215,14 @@ func (l lazyStep) String() string {
 	return l.step
 }
 
+// readAllWords: see everything() in check.
+const readAllWords = 1024
+
+// lazyStr formats only when a failure message is built.
+type lazyStr func() string
+
+func (l lazyStr) String() string { return l() }
+
 type probeRes struct{ g1, g uint64 }
 
 func check(c Case) *vk.Failure {
@@ -136,6 +238,7 @@ func check(c Case) *vk.Failure {
 			return f
 		}
 		ms[i] = newModel(o)
+		ms[i].track = true
 		prevs[i] = tbs[i].Offset
 		if tbs[i].Offset != o {
 			return vk.Failf("initial-offset", "NewTailBitmap(%d).Offset = %d", o, tbs[i].Offset)
@@ -171,13 +274,93 @@ func check(c Case) *vk.Failure {
 		return nil
 	}
 
+	// below: positions of the implicit prefix [0, lo) - lo is where the dense part of a window starts. All of them must
+	// read 1: those below the initial offset always did, those in [initial offset, Offset) were set one by one and then
+	// dropped by compaction. No library call is involved in choosing them.
+	below := func(stepNo int, lo int64) []int64 {
+		if lo <= 0 {
+			return nil
+		}
+		js := make([]int64, 0, 192)
+		add := func(j int64) {
+			if j >= 0 && j < lo {
+				js = append(js, j)
+			}
+		}
+		for _, j := range []int64{0, 1, 2, 62, 63, 64, 65, 127, 128, 129, 191, 192} {
+			add(j)
+		}
+		for _, d := range []int64{-65, -64, -63, -1, 0, 1, 63, 64, 65} { // around the initial offset: the first positions that were ever stored
+			add(m.o + d)
+		}
+		off := tb.Offset
+		for _, d := range []int64{131, 191, 192, 193, 255, 256, 257, 1023, 1024, 1025, 4095, 4096, 4097, 65535, 65536, 65537} {
+			add(off - d)
+		}
+		for k := uint(6); k < 63; k++ { // absolute powers of two and power-of-two distances below Offset; a fifth of them per step
+			if (int(k)+stepNo)%5 == 0 {
+				add(1<<k - 1)
+				add(1 << k)
+				add(off - 1<<k - 1)
+				add(off - 1<<k)
+				add(off - 1<<k + 1)
+			}
+		}
+		key := uint64(c.ProbeKey) ^ 0xb10b10b10b10 + uint64(stepNo)*0x10001
+		for i := uint64(0); i < 16; i++ { // log-uniform distance below Offset
+			add(off - 1 - logScale(vk.Mix(key+i), uint64(off)))
+		}
+		for i := uint64(24); i < 32; i++ { // log-uniform absolute position
+			add(logScale(vk.Mix(key+i), uint64(lo)))
+		}
+		for i := uint64(36); i < 44; i++ { // uniform
+			add(int64(vk.Mix(key+i) % uint64(lo)))
+		}
+		if span := off - m.o; span >= 64 { // the region that was set explicitly and compacted away: uniform positions and word boundaries
+			for i := uint64(48); i < 56; i++ {
+				z := vk.Mix(key + i)
+				add(m.o + int64(z%uint64(span)))
+				w := int64(vk.Mix(z) % uint64(span/64))
+				add(m.o + 64*w)
+				add(m.o + 64*w + 63)
+			}
+		}
+		return js
+	}
+
+	// neighbours: every explicitly set index that is still stored, with the positions 1 and 64 before and after it
+	// (at most 1024 of them: beyond that the most recent 256 and 512 keyed ones)
+	neighbours := func(stepNo int, js []int64, lo, hi int64) []int64 {
+		live := m.liveSet()
+		pick := func(j int64) {
+			for _, d := range []int64{-64, -1, 0, 1, 64} {
+				if j+d >= lo && j+d < hi {
+					js = append(js, j+d)
+				}
+			}
+		}
+		if len(live) <= 1024 {
+			for _, j := range live {
+				pick(j)
+			}
+			return js
+		}
+		for _, j := range live[len(live)-256:] {
+			pick(j)
+		}
+		for i := 0; i < 512; i++ {
+			pick(live[vk.Mix(uint64(c.ProbeKey)+uint64(stepNo)*3571+uint64(i))%uint64(len(live))])
+		}
+		return js
+	}
+
 	window := func(stepNo int) []int64 {
 		lo := tb.Offset - 130
 		if lo < 0 {
 			lo = 0
 		}
 		hi := tb.Offset + int64(64*len(tb.Words))
-		var js []int64
+		js := below(stepNo, lo)
 		if hi-lo <= 4096 {
 			for j := lo; j < hi; j++ {
 				js = append(js, j)
@@ -187,11 +370,29 @@ func check(c Case) *vk.Failure {
 		for j := lo; j < tb.Offset+64 && j < hi; j++ {
 			js = append(js, j)
 		}
-		if nw := int64(len(tb.Words)); nw <= 1<<16 {
+		nw := int64(len(tb.Words))
+		switch {
+		case nw <= 2048:
 			for w := int64(0); w < nw; w++ {
 				js = append(js, tb.Offset+64*w, tb.Offset+64*w+63)
 			}
-		} else { // a huge tail (2^25 words and more): the first and last words, the words around 2^31 and 2^32 bits, every set index and keyed words
+		case nw <= 1<<16: // the first and last 64 words and 512 keyed words: first, last and one keyed bit of each
+			ws := []int64{}
+			for w := int64(0); w < 64; w++ {
+				ws = append(ws, w, nw-1-w)
+			}
+			for _, w := range []int64{1023, 1024, 1025, 2047, 2048, 2049, 4095, 4096, 4097} { // (capacities that append passes through)
+				if w < nw {
+					ws = append(ws, w, nw-1-w)
+				}
+			}
+			for i := 0; i < 512; i++ {
+				ws = append(ws, int64(vk.Mix(uint64(c.ProbeKey)+uint64(stepNo)*7919+uint64(i))%uint64(nw)))
+			}
+			for _, w := range ws {
+				js = append(js, tb.Offset+64*w, tb.Offset+64*w+63, tb.Offset+64*w+int64(vk.Mix(uint64(w)+uint64(stepNo))%64))
+			}
+		default: // a huge tail (2^25 words and more): the first and last words, the words around 2^31 and 2^32 bits and keyed words
 			ws := []int64{}
 			for w := int64(0); w < 64; w++ {
 				ws = append(ws, w, nw-1-w, 1<<25-32+w, 1<<26-32+w)
@@ -204,17 +405,8 @@ func check(c Case) *vk.Failure {
 					js = append(js, tb.Offset+64*w, tb.Offset+64*w+63, tb.Offset+64*w+int64(vk.Mix(uint64(w))%64))
 				}
 			}
-			if len(m.set) <= 4096 {
-				for j := range m.set {
-					for _, d := range []int64{-64, -1, 0, 1, 64} {
-						if j+d >= lo && j+d < hi {
-							js = append(js, j+d)
-						}
-					}
-				}
-				sort.Slice(js, func(a, b int) bool { return js[a] < js[b] }) // (map order must not decide the order of the probes)
-			}
 		}
+		js = neighbours(stepNo, js, lo, hi)
 		js = append(js, hi-1, hi-2, hi-64)
 		if m.maxSet >= lo && m.maxSet < hi {
 			js = append(js, m.maxSet)
@@ -231,28 +423,64 @@ func check(c Case) *vk.Failure {
 		return js
 	}
 
-	probe := func(step string, js []int64) ([]probeRes, *vk.Failure) {
+	// everything: every position of the stored words and of the 8192 positions before them (a tail of more than
+	// 2*readAllWords words: its first and last readAllWords words), on top of the ordinary window
+	everything := func(stepNo int) []int64 {
+		js := window(stepNo)
+		lo := tb.Offset - 8192
+		if lo < 0 {
+			lo = 0
+		}
+		hi := tb.Offset + int64(64*len(tb.Words))
+		if len(tb.Words) <= 2*readAllWords {
+			for j := lo; j < hi; j++ {
+				js = append(js, j)
+			}
+			return js
+		}
+		for j := lo; j < tb.Offset+64*readAllWords; j++ {
+			js = append(js, j)
+		}
+		for j := hi - 64*readAllWords; j < hi; j++ {
+			js = append(js, j)
+		}
+		return js
+	}
+
+	probeL := func(stepL func() string, js []int64) ([]probeRes, *vk.Failure) {
+		step := lazyStr(stepL)
 		res := make([]probeRes, len(js))
-		for i, j := range js {
-			var g1, g uint64
-			if f := vk.TryF(func() string {
-				return fmt.Sprintf("%s: Get/Get1(%d) with Offset %d and %d words", step, j, tb.Offset, len(tb.Words))
-			}, func() {
-				g1, g = tb.Get1(j), tb.Get(j)
-			}); f != nil {
-				return nil, f
+		var cur int64 // the position being read (for the message of a panic)
+		var fail *vk.Failure
+		if f := vk.TryF(func() string {
+			return fmt.Sprintf("%s: Get/Get1(%d) with Offset %d and %d words", step, cur, tb.Offset, len(tb.Words))
+		}, func() {
+			for i, j := range js {
+				cur = j
+				g1, g := tb.Get1(j), tb.Get(j)
+				want := m.get(j)
+				if g1 != want {
+					fail = vk.Failf("get1", "%s: Get1(%d) = %d, model says %d (Offset %d, %d words)", step, j, g1, want, tb.Offset, len(tb.Words))
+					return
+				}
+				if g != want<<(uint64(j)%64) {
+					fail = vk.Failf("get", "%s: Get(%d) = %#x, want %#x (Offset %d, %d words)", step, j, g, want<<(uint64(j)%64), tb.Offset, len(tb.Words))
+					return
+				}
+				res[i] = probeRes{g1, g}
 			}
-			want := m.get(j)
-			if g1 != want {
-				return nil, vk.Failf("get1", "%s: Get1(%d) = %d, model says %d (Offset %d, %d words)", step, j, g1, want, tb.Offset, len(tb.Words))
-			}
-			if g != want<<(uint64(j)%64) {
-				return nil, vk.Failf("get", "%s: Get(%d) = %#x, want %#x (Offset %d, %d words)", step, j, g, want<<(uint64(j)%64), tb.Offset, len(tb.Words))
-			}
-			res[i] = probeRes{g1, g}
+		}); f != nil {
+			return nil, f
+		}
+		if fail != nil {
+			return nil, fail
 		}
 		return res, nil
 	}
+	probe := func(step string, js []int64) ([]probeRes, *vk.Failure) {
+		return probeL(func() string { return step }, js)
+	}
+	var mini []int64
 
 	// others: after a step on one instance every other live instance must still read like its model
 	others := func(si int, step string) *vk.Failure {
@@ -308,7 +536,18 @@ func check(c Case) *vk.Failure {
 			}
 			continue
 		}
-		for _, idx := range expand(op, m) {
+		if op.K == "readall" {
+			if _, f := probe(step, everything(si)); f != nil {
+				return f
+			}
+			if f := others(si, step); f != nil {
+				return f
+			}
+			continue
+		}
+		idxs := expand(op, m)
+		stepMini := step + " (between the Sets of this macro step)"
+		for i, idx := range idxs {
 			if f := vk.TryF(func() string {
 				return fmt.Sprintf("%s: Set(%d) with Offset %d and %d words", step, idx, tb.Offset, len(tb.Words))
 			}, func() { tb.Set(idx) }); f != nil {
@@ -317,6 +556,20 @@ func check(c Case) *vk.Failure {
 			m.doSet(idx)
 			if f := cheap(step, idx, true); f != nil {
 				return f
+			}
+			// between the elementary Sets of a macro step: the bit just set and its neighbours, both sides of Offset, the
+			// first zero and the last stored bit (every Set of a short macro, else the Sets at word ends and every 37th)
+			if op.K != "set" && i+1 < len(idxs) && (len(idxs) <= 256 || idx&63 == 63 || idx&63 == 0 || i%37 == 0) {
+				hi := tb.Offset + int64(64*len(tb.Words))
+				mini = mini[:0]
+				for _, j := range [...]int64{idx - 1, idx, idx + 1, tb.Offset - 1, tb.Offset, m.firstZero, hi - 1} {
+					if j >= 0 && j < hi {
+						mini = append(mini, j)
+					}
+				}
+				if _, f := probeL(lazyStep{stepMini, idx}.String, mini); f != nil {
+					return f
+				}
 			}
 		}
 		if _, f := probe(step, window(si)); f != nil {
@@ -348,30 +601,70 @@ func classify(c Case) (bool, []string) {
 	if len(offs) > 1 {
 		add(fmt.Sprintf("instances:%d", len(offs)))
 	}
+	recl := append([]int64{}, offs...) // where a correct implementation did its last reallocation
 	for _, op := range c.Ops {
 		if op.I < 0 || op.I >= len(ms) {
 			continue
 		}
 		m = ms[op.I]
+		off0 := m.firstZero / 64 * 64
+		end0 := off0
+		if m.maxSet >= off0 {
+			end0 = (m.maxSet/64 + 1) * 64
+		}
 		switch op.K {
 		case "compact":
 			add("has-compact")
+		case "readall":
+			add("has-readall")
+		case "pattern":
+			add("has-pattern")
 		case "fillthrough":
-			if op.A >= 1023 {
-				add("crossed-reclaim")
+			switch {
+			case op.A <= 3:
+			case op.A < 1023:
+				add("fillthrough:4..1022-words")
+			case op.A <= 1025:
+				add("fillthrough:1023..1025-words")
+			default:
+				add("fillthrough:>1025-words")
 			}
 		case "fillword":
 			add([]string{"fill:front-to-back", "fill:back-to-front", "fill:permuted"}[op.B])
 		case "set":
-			if op.A < m.firstZero/64*64 {
+			if op.A < off0 {
 				add("set-below-offset")
+				if op.A < off0-200 {
+					add("set-more-than-200-below-offset")
+				}
 			}
-			if m.set[op.A] {
+			if op.A >= 0 && m.has(op.A) {
 				add("set-repeat")
+			}
+			if op.A >= end0 {
+				switch ahead := (op.A - end0) / 64; {
+				case ahead <= 8:
+				case ahead < 1023:
+					add("set-9..1022-words-past-the-end")
+				case ahead <= 1064:
+					add("set-1023..1064-words-past-the-end")
+				default:
+					add("set-more-than-1064-words-past-the-end")
+				}
+			}
+			if op.A > off0+64 && op.A < end0 && (op.A-off0)/64 > 4 {
+				add("set-inside-stored-word>4")
 			}
 		}
 		for _, idx := range expand(op, m) {
 			m.doSet(idx)
+			if o1 := m.firstZero / 64 * 64; o1-recl[op.I] >= 1024*64 { // (the library looks at this after every compaction)
+				recl[op.I] = o1
+				add("crossed-reclaim")
+				if m.maxSet >= o1 {
+					add("crossed-reclaim-with-live-tail")
+				}
+			}
 		}
 		off := m.firstZero / 64 * 64
 		if off > offs[op.I] {
@@ -389,8 +682,10 @@ func classify(c Case) (bool, []string) {
 		add("o:0")
 	case c.O < 1<<20:
 		add("o:small")
-	default:
+	case c.O <= 1<<40:
 		add("o:huge")
+	default:
+		add("o:beyond-2^40")
 	}
 	if advanced {
 		add("offset-advanced")
@@ -403,9 +698,17 @@ func classify(c Case) (bool, []string) {
 
 // ---------------------------------------------------------------- generator
 
+// logU draws a value in [lo, hi] whose magnitude above lo is log-uniform: no size between the small values and hi is left out.
+func logU(t *rapid.T, lo, hi int64, label string) int64 {
+	if hi <= lo {
+		return lo
+	}
+	return lo + logScale(gen.U64(t, label), uint64(hi-lo)+1)
+}
+
 func genCase(t *rapid.T) Case {
 	var o int64
-	switch gen.Uniform(t, 6, "oclass") {
+	switch gen.Uniform(t, 8, "oclass") {
 	case 0, 1:
 		o = 0
 	case 2:
@@ -414,8 +717,10 @@ func genCase(t *rapid.T) Case {
 		o = 128
 	case 4:
 		o = 64 * int64(gen.U64(t, "r")%(1<<34))
-	default:
+	case 5:
 		o = 1 << 37
+	default: // any magnitude from 64 up to 2^61
+		o = 64 * logU(t, 1, 1<<55, "rlog")
 	}
 	c := Case{O: o, ProbeKey: vk.U64(gen.U64(t, "probekey"))}
 	if gen.Chance(t, 1, 3, "multi") { // several bitmaps alive at the same time
@@ -432,7 +737,9 @@ func genCase(t *rapid.T) Case {
 	maxSteps := vk.Pick(60, 400)
 	n := 1 + gen.Len(t, maxSteps-1, "steps")
 	farWords := int64(vk.Pick(8, 64))
-	bigBudget := 1 // at most one reclaim-crossing macro per history (65k elementary Sets)
+	farMax := int64(vk.Pick(1<<17, 1<<21))   // words; the longest jump of one Set
+	bigBudget := 1                           // at most one reclaim-crossing macro per history (65k elementary Sets) ...
+	wordBudget := int64(vk.Pick(1200, 4000)) // ... and so many words filled by the other macro steps of more than 3 words
 	for i := 0; i < n; i++ {
 		inst := gen.Uniform(t, len(ms), "instance")
 		m = ms[inst]
@@ -441,11 +748,15 @@ func genCase(t *rapid.T) Case {
 		if m.maxSet >= off {
 			end = (m.maxSet/64 + 1) * 64
 		}
+		stored := (end - off) / 64
 		var op Op
-		switch gen.Uniform(t, 16, "opclass") {
-		case 0: // below Offset
+		switch gen.Uniform(t, 18, "opclass") {
+		case 0: // below Offset, at any distance
 			if off > 0 {
 				op = Op{K: "set", A: off - 1 - int64(gen.U64(t, "below")%uint64(min(off, 200)))}
+				if gen.Chance(t, 1, 2, "farbelow") {
+					op.A = off - 1 - logU(t, 0, off-1, "belowlog")
+				}
 			} else {
 				op = Op{K: "set", A: 0}
 			}
@@ -455,13 +766,28 @@ func genCase(t *rapid.T) Case {
 			op = Op{K: "set", A: off + int64(gen.Uniform(t, 64, "bit"))}
 		case 4, 5: // the first missing bit of word 0; when it is the last one this forces a compaction
 			op = Op{K: "set", A: m.firstZero}
-		case 6: // inside a stored word k>0
+		case 6: // inside a stored word k>0 (any of them; half of the time one of the first four)
 			k := int64(1 + gen.Uniform(t, 4, "k"))
+			if stored > 5 && gen.Chance(t, 1, 2, "anyk") {
+				k = logU(t, 1, stored-1, "klog")
+			}
 			op = Op{K: "set", A: off + 64*k + int64(gen.Uniform(t, 64, "bit"))}
 		case 7: // past the end
 			op = Op{K: "set", A: end + int64(gen.U64(t, "far")%uint64(64*farWords))}
-			if gen.Chance(t, 1, 6, "veryfar") { // one Set more than 1024 words (the initial capacity) ahead
+			switch gen.Uniform(t, 12, "farclass") {
+			case 0, 1: // one Set more than 1024 words (the initial capacity) ahead
 				op.A = end + 64*1024 + int64(gen.U64(t, "far2")%(64*40))
+			case 2, 3: // any number of words up to 4096: Words passes 1024, 2048 ... on the way
+				op.A = end + 64*logU(t, 0, 4096, "farlog") + int64(gen.Uniform(t, 64, "bit"))
+			case 4: // the stored words end exactly around a capacity step
+				op.A = off + 64*([]int64{1024, 2048, 4096}[gen.Uniform(t, 3, "cap")]+int64(gen.Uniform(t, 3, "d"))-2) + int64(gen.Uniform(t, 64, "bit"))
+				if op.A < end {
+					op.A = end
+				}
+			case 5:
+				if gen.Chance(t, 1, 3, "huge") {
+					op.A = end + 64*logU(t, 4096, farMax, "farlog2") + int64(gen.Uniform(t, 64, "bit"))
+				}
 			}
 		case 8: // repeat something already set
 			if m.maxSet >= 0 {
@@ -472,15 +798,39 @@ func genCase(t *rapid.T) Case {
 		case 9, 10: // fill word 0 (leaving the generator free to do it in any order)
 			op = Op{K: "fillword", A: off / 64, B: int64(gen.Uniform(t, 3, "order")), Key: vk.U64(gen.U64(t, "perm"))}
 		case 11: // fill a later word first (out-of-order fill)
-			op = Op{K: "fillword", A: off/64 + int64(1+gen.Uniform(t, 3, "k")), B: int64(gen.Uniform(t, 3, "order")), Key: vk.U64(gen.U64(t, "perm"))}
+			k := int64(1 + gen.Uniform(t, 3, "k"))
+			if gen.Chance(t, 1, 3, "anyk") {
+				k = logU(t, 1, stored+2, "klog")
+			}
+			op = Op{K: "fillword", A: off/64 + k, B: int64(gen.Uniform(t, 3, "order")), Key: vk.U64(gen.U64(t, "perm"))}
 		case 12:
 			op = Op{K: "fillthrough", A: int64(1 + gen.Uniform(t, 3, "m"))}
 		case 13:
-			if bigBudget > 0 && gen.Chance(t, 1, vk.Pick(12, 4), "big") {
+			// (a stored tail that reaches beyond the crossing point makes the crossing three times as likely)
+			if bigBudget > 0 && gen.Chance(t, 1+2*btoi(stored > 1025), vk.Pick(12, 4), "big") {
 				bigBudget--
 				op = Op{K: "fillthrough", A: []int64{1023, 1024, 1025}[gen.Uniform(t, 3, "m")]}
+			} else if wordBudget > 3 && gen.Chance(t, 1, 3, "mid") { // any number of words from 4 on
+				op = Op{K: "fillthrough", A: logU(t, 4, min(wordBudget, 1100), "mlog")}
+				wordBudget -= op.A
 			} else {
 				op = Op{K: "fillthrough", A: 2}
+			}
+		case 14: // a word-wise mix (untouched, complete, one bit, all but one bit, random ...) over the first stored words or further out
+			nw := 1 + logU(t, 0, min(wordBudget, 63), "pwords")
+			first := off/64 + int64(gen.Uniform(t, 3, "pfirst"))
+			if gen.Chance(t, 1, 4, "pfar") {
+				first = off/64 + logU(t, 0, stored+8, "pfirstlog")
+			}
+			op = Op{K: "pattern", A: first, B: nw, Key: vk.U64(gen.U64(t, "pkey"))}
+			if nw > 3 {
+				wordBudget -= nw
+			}
+		case 15:
+			if stored > 64 && gen.Chance(t, 1, 3, "readall") {
+				op = Op{K: "readall"}
+			} else {
+				op = Op{K: "compact"}
 			}
 		default:
 			op = Op{K: "compact"}
@@ -492,6 +842,13 @@ func genCase(t *rapid.T) Case {
 		}
 	}
 	return c
+}
+
+func btoi(b bool) int {
+	if b {
+		return 1
+	}
+	return 0
 }
 
 func TestRegress(t *testing.T) { checker.Regress(t) }
@@ -515,8 +872,101 @@ func TestGrid(t *testing.T) {
 		}(), Op{K: "fillword", A: 2, B: 1}, Op{K: "compact"}, Op{K: "set", A: 1031*64 + 63}, Op{K: "fillword", A: 1031, B: 2, Key: 7})},
 		{O: 1 << 37, Class: "scenario", ProbeKey: 3, Ops: []Op{{K: "set", A: 1<<37 + 64*2000 + 1}, {K: "fillthrough", A: 1023}, {K: "fillthrough", A: 1}, {K: "fillthrough", A: 1}, {K: "compact"}, {K: "fillthrough", A: 1024}, {K: "set", A: 1 << 36}}},
 	}
-	for _, c := range scen {
-		checker.Run(t, c)
+	vk.ProcsSweep(func() {
+		for _, c := range scen {
+			checker.Run(t, c)
+		}
+	})
+	modelSelfTest()
+
+	// The Compact call that crosses the 1024-word reclaim threshold, met with every size of stored tail behind it (0, 1, 2 ...
+	// 2^k-1, 2^k, 2^k+1 ... 4097 words and seed-dependent sizes in between, a word-wise mix of untouched/complete/partial words) and with 1, 2, 3 ... 200
+	// words dropped by that one call; several crossings per history, absolute positions passing 2^31 and 2^32 on the way.
+	ls := []int64{0, 1, 2, 3, 4, 5, 7, 8, 9, 15, 16, 17, 31, 32, 33, 63, 64, 65, 127, 128, 129, 255, 256, 257, 511, 512, 513,
+		1023, 1024, 1025, 2047, 2048, 2049, 4095, 4096, 4097}
+	for k := uint(3); k < 12; k++ { // and two more sizes (thorough: eight) in every octave, one per half, depending on the seed of the run
+		for i := uint64(0); i < uint64(vk.Pick(2, 8)); i++ {
+			half := int64(1) << (k - 1)
+			ls = append(ls, 1<<k+int64(i%2)*half+int64(vk.Mix(uint64(k)*16+i+vk.Seed()*4096)%uint64(half)))
+		}
+	}
+	ns := []int64{1, 2, 3, 1, 4, 1, 64, 2, 1, 200, 5, 1, 3, 8, 1, 2, 33}
+	os := []int64{0, 64, 1<<31 - 64*1500, 1 << 37, 1<<32 - 64*2600, 64 * 999, 1<<40 + 128, 1<<60 + 64}
+	const perCase = 6
+	for ci := 0; ci*perCase < len(ls); ci++ {
+		var rounds [][2]int64
+		for ri := ci * perCase; ri < len(ls) && ri < (ci+1)*perCase; ri++ {
+			rounds = append(rounds, [2]int64{ls[ri], ns[ri%len(ns)]})
+		}
+		c := reclaimScenario(os[ci%len(os)], rounds, uint64(1000+ci))
+		if ci == 0 {
+			vk.ProcsSweep(func() { checker.Run(t, c) })
+		} else {
+			checker.Run(t, c)
+		}
+	}
+}
+
+// reclaimScenario builds a history of len(rounds) crossings of the reclaim threshold. Round {l, n}: with W the first stored
+// word, a tail of l words is laid out from word T = W+1023+n on (word T never complete, the last one never empty, the
+// others a word-wise mix), the n-1 words before T are filled completely, then words W..W+1022 front to back, and the Set
+// that completes word W+1023 makes Compact drop n words at once, reach 1024+n-1 words since the last reallocation and
+// keep l words. Everything is read before and after; two Sets far below Offset and one more Set into the tail follow.
+func reclaimScenario(o int64, rounds [][2]int64, key uint64) Case {
+	c := Case{O: o, Class: "scenario-reclaim", ProbeKey: vk.U64(key)}
+	w := o / 64
+	for ri, r := range rounds {
+		l, n := r[0], r[1]
+		z := vk.Mix(key*131 + uint64(ri))
+		t := w + 1023 + n
+		if l > 1 {
+			c.Ops = append(c.Ops, Op{K: "pattern", A: t + 1, B: l - 1, Key: vk.U64(z)})
+			c.Ops = append(c.Ops, Op{K: "set", A: (t+l-1)*64 + int64(z>>8%64)})
+		}
+		if l == 1 || (l > 1 && z&1 == 1) {
+			c.Ops = append(c.Ops, Op{K: "set", A: t*64 + int64(z>>16%64)})
+		}
+		for k := n - 1; k >= 1; k-- {
+			c.Ops = append(c.Ops, Op{K: "fillword", A: w + 1023 + k, B: k % 3, Key: vk.U64(z + uint64(k))})
+		}
+		c.Ops = append(c.Ops, Op{K: "fillthrough", A: 1023}, Op{K: "readall"},
+			Op{K: "fillword", A: w + 1023, B: int64(ri % 3), Key: vk.U64(z)}, Op{K: "readall"},
+			Op{K: "set", A: o}, Op{K: "set", A: t*64 - 64*1024 - 1}, Op{K: "compact"})
+		if l > 0 {
+			c.Ops = append(c.Ops, Op{K: "set", A: (t+l/2)*64 + int64(z>>24%64)}, Op{K: "readall"})
+		}
+		w = t
+	}
+	return c
+}
+
+// modelSelfTest compares the model's table with a plain map of indexes (a harness fault, not a library fault, if they differ).
+func modelSelfTest() {
+	m := newModel(128)
+	plain := map[int64]bool{}
+	for i := uint64(0); i < 20000; i++ {
+		z := vk.Mix(i)
+		j := int64(z % 4096)
+		if z>>32%4 == 0 {
+			j = 128 + int64(z>>40%200)
+		}
+		m.doSet(j)
+		if j >= 128 {
+			plain[j] = true
+		}
+		q := int64(vk.Mix(z) % 4200)
+		want := uint64(0)
+		if q < 128 || plain[q] {
+			want = 1
+		}
+		fz := int64(128)
+		for plain[fz] {
+			fz++
+		}
+		if m.get(q) != want || m.firstZero != fz {
+			vk.Infra(fmt.Sprintf("c15 model self-test: after %d sets get(%d)=%d want %d, firstZero=%d want %d", i+1, q, m.get(q), want, m.firstZero, fz))
+			return
+		}
 	}
 }
 
